@@ -490,6 +490,10 @@ def run(ctx):
             ('ACOS', (-2,)), ('ASIN', (1.0000001,)), ('ASIN', (-2,)),
             ('ACOSH', (0.9999999,)), ('ACOSH', (-3,)), ('MOD', (5, 0)),
             ('MOD', (0, 0)), ('FACT', (-1,)), ('FACTDOUBLE', (-1,)),
+            ('FACT', (-0.5,)), ('FACT', (-1e-15,)), ('FACT', (-0.999,)),
+            ('FACTDOUBLE', (-0.3,)), ('FACTDOUBLE', (-1e-9,)),
+            ('SQRT', (-5e-324,)), ('LN', (-5e-324,)), ('LOG10', (-1e-300,)),
+            ('ACOSH', (1 - 2 ** -53,)), ('ASIN', (1 + 2 ** -52,)),
             ('FACT', (171,)), ('FACT', (1000,)), ('EXP', (1000,)),
             ('COSH', (1000,)), ('POWER', (10, 1000)), ('POWER', (0, -1)),
             ('POWER', (-8, 1 / 3)), ('FLOOR', (5, 0)),
